@@ -41,7 +41,7 @@ theorem C04_immediate (s : HState) (target : Bytes) (announce : Bool) (now : Nat
     unfold Lookup.new
     rw [ht, hn, hnone]
     simp [Lookup.requestRound]
-  unfold HState.startLookup
+  unfold HState.startLookup HState.afterNew
   simp only [hnew (s.env now) rfl rfl]
   simp [Lookup.completedNow, Lookup.recvFinished, Lookup.announceTargets, liftEffects, HState.withEnv, HState.env]
 
